@@ -101,6 +101,7 @@ func (e *Engine) nodeAPI(name string, args []Value) (Value, bool) {
 		w := tt.Var(n, 64)
 		e.nondets = append(e.nondets, &Nondet{Name: n, Kind: "int64", Term: w})
 		e.addPC(tt.Cmp("bvule", w, e.c64(8)))
+		e.varBound[w.id] = ival{0, 8}
 		e.addPC(e.widthLegal(tt.Extract(w, 7, 0), args[1].(*Term)))
 		return w, true
 	case "vMinWidth":
